@@ -467,3 +467,10 @@ Proof. vm_compute. reflexivity. Qed.
 Theorem int_text_lossless : forall z, read_fixed (int_text z) = Some ((z <? 0)%Z, Z.abs z, O).
 Proof. exact int_text_reads_back. Qed.
 Print Assumptions int_text_lossless.
+
+(* the two canned bodies of the label service are the encoders' bodies of no item: Values with an empty label name
+   writes the literal of GenericLabelReq without rows, Series without match[] the literal of Series without rows *)
+Example canned_label_bodies :
+  render (enc_labels []) = "{""status"": ""success"",""data"": []}" /\
+  render (enc_series []) = "{""status"":""success"", ""data"":[]}".
+Proof. split; vm_compute; reflexivity. Qed.
